@@ -82,7 +82,7 @@ FLOORS = {
                  'fifo_pairs_checked': 40000},
 }
 JOBS = 12
-SPEC_TIMEOUT = 420
+SPEC_TIMEOUT = 900
 CONFIRM_ALONE = ('transfer_stalled', 'join_not_returning', 'blocked_put_not_released',
                  'put_item_not_gettable')
 
@@ -100,10 +100,12 @@ def plan(tier, seed):
         specs.append({'mode': 'cap', 'seed': b + i, 'scripts': 8 if q else 25,
                       'ops': 300 if q else 500})
     fl = ['thread', 'fork', 'mixed']
-    for i in range(15 if q else 54):
+    for i in range(15 if q else 84):
+        # (specs are kept short: on a busy machine a process-based scenario can
+        # take 20-30 s instead of 1-2 s)
         f = fl[i % 3]
         specs.append({'mode': 'xfer', 'seed': b + 100 + i, 'flavour': f,
-                      'scenarios': (6 if f == 'thread' else 3) if q else (14 if f == 'thread' else 7),
+                      'scenarios': (6 if f == 'thread' else 3) if q else (9 if f == 'thread' else 4),
                       'scale': 0.7 if q else 1.4})
     for i in range(2 if q else 6):
         specs.append({'mode': 'xfer', 'seed': b + 200 + i,
